@@ -53,12 +53,10 @@ RECORD = "src/core/record.rs"
 PROPS["T"] = {  # scratch group for development
     "technique": "dev", "level_text": "dev", "level_note": "dev",
     "kani": [
-        H(SEQ, "c10_crc32c_byte_step", ""), H(SEQ, "c10_crc32c_sw_matches_bitwise_3", ""), H(SEQ, "c10_crc32c_streaming", ""), H(SEQ, "c10_crc32c_known_answer", ""),
-        H(SEQ, "c10_record_token_coverage", ""), H(SEQ, "c10_record_token_ignores_seq_field", ""), H(SEQ, "c10_seq_token_coverage", ""), H(SEQ, "c10_stamp_seq_token", ""),
-        H(SEQ, "c17_header_range_total", ""), H(SEQ, "c17_header_range_block", ""),
-        H(FMT, "c10_serialize_header_v2", ""), H(FMT, "c10_serialize_header_v1", ""), H(FMT, "c17_parse_record_v2_total", ""),
-        H(FMT, "c17_parse_record_v1_total", ""), H(FMT, "c10_roundtrip_v2", ""), H(FMT, "c05_extent_length_agreement", ""),
-        H(FMT, "c05_record_disk_size_agrees_v2", ""), H(FMT, "c08_sector_holds_record_sound", ""), H(FMT, "c10_retirement_marker_layout", ""),
-        H(FMT, "c10_retirement_markers_two_blocks", ""), H(FMT, "c10_marker_token_binds_sector_and_state", ""), H(FMT, "c10_format_selection", ""),
+        H(META, "c10_metadata_from_bytes_total", ""), H(META, "c17_metadata_short_input", ""), H(META, "c10_metadata_advance_generation", ""),
+        H(JRN, "c10_journal_encode_active_layout", ""), H(JRN, "c10_journal_encode_clear_layout", ""), H(JRN, "c10_journal_geometry", ""),
+        H(JRN, "c17_journal_decode_slot_count0", ""), H(JRN, "c17_journal_decode_slot_count1", ""), H(JRN, "c17_journal_decode_slot_count2", ""),
+        H(JRN, "c17_journal_decode_slot_count3", ""), H(JRN, "c17_journal_decode_slot_huge_count", ""),
+        H(JRN, "c03_journal_decode_selects_newest_valid", ""), H(JRN, "c17_journal_decode_wrong_length", ""),
     ],
 }
